@@ -5,7 +5,7 @@ from .. import vfcore as V
 from ..instrument import instrument, run_calls
 
 PROP = "C08"
-TARGETS = ["theories/Registry/Proofs.vo"]
+TARGETS = ["theories/Registry/Proofs.vo", "theories/Registry/Unbounded.vo"]
 GO = ["zz_verif_registry_test.go", "zz_verif_fakes_test.go", "zz_verif_routing_test.go"]
 ANCHORS = ["shard_manager", "proxy_streams", "intra_proxy_router"]
 EXPECTED_PROGS = {"sr": "SetRemoteSendChan RegisterShard", "sc": "close UnregisterShard RemoveRemoteSendChan",
@@ -467,8 +467,10 @@ MANIFEST = {
     "text": "Theorems C08_*: for two and three successive incarnations of a shard's sender and receiver, in every interleaving of the critical sections of register / cleanup / watermark replay, the "
             "registries end holding exactly the newest incarnation's entries, nothing panics, no lock stays held; when all incarnations ended nothing is registered; a cleanup changes an entry only if "
             "it is its own (any state, any incarnation); and, unbounded, for ANY operation sequence (any number of incarnations, any interleaving) the sender-side entries registered last survive "
-            "every other incarnation's cleanup and guarded replays never crash. The model's atomicity is tied to the code by enumerating every schedule of the real "
+            "every other incarnation's cleanup, guarded replays never crash, and (theories/Registry/Unbounded.v) the receiver-side entries of an incarnation that published its channel and registered "
+            "while every other incarnation only cleaned up are all its own at the end with the lock free (C08_receiver_newest_survives, for every lock-respecting sequence and hence every execution), "
+            "and nothing remains once it has cleaned up too (C08_receiver_all_ended_empty). The model's atomicity is tied to the code by enumerating every schedule of the real "
             "methods at lock boundaries and comparing the sets of final states.",
-    "note": "Receiver-side statements are for 2-3 incarnations (exhaustive); sender-side survival and crash-freedom are unbounded; an incarnation that starts registering before its predecessor has registered is outside the statement (the proxy cannot order them). Registration identity is the "
+    "note": "Sender-side and receiver-side survival and crash-freedom are unbounded (any number of incarnations); the 2-3 incarnation statements are exhaustive explorations that also cover the eviction of the predecessor; an incarnation that starts registering before its predecessor has registered is outside the statement (the proxy cannot order them). Registration identity is the "
             "time.Now() stamp. Goroutine leak is observed on whole streams (handlers returning), not proved.",
 }
